@@ -36,6 +36,10 @@ func (r *RigS) afterStep(crashing bool) {
 	prop := r.plan.Prop
 	if prop == "C05" || prop == "C06" || prop == "C03" || prop == "C04" {
 		raw := r.rawStore()
+		if prop == "C04" {
+			r.noteDropRequests()
+			r.prevRaw = raw
+		}
 		if raw != r.lastStore {
 			r.lastStore = raw
 			r.checkCheckpoints()
@@ -165,6 +169,22 @@ func (r *RigS) onRegistration(st *SimStream) {
 				r.s.Violate("C05", "resume_ignores_checkpoint", "stream %s of task %s is registered again without a position; unacknowledged messages %v of its domain are skipped", st.Key(), owner, un)
 			}
 			return
+		}
+	}
+	if at, have := r.st.CatDropAt[fmt.Sprint(st.Coll)]; have && (at[0] < r.plan.Incarnation || (at[0] == r.plan.Incarnation && at[1] < st.RegStep)) {
+		// the source catalog already showed the collection as dropping when this stream was started: the reader generates the
+		// drop message of this shard itself (it does not wait for the one in the message queue)
+		k := fmt.Sprintf("%d|%d|%d", tgt, st.Coll, st.Shard)
+		if _, seen := r.st.DropSeen[k]; !seen {
+			r.st.DropSeen[k] = [2]int{r.plan.Incarnation, st.RegStep}
+			r.s.Probe("S_drop_message_generated_at_start")
+		}
+	}
+	for i, e := range log {
+		if i >= from && e.Kind == "dropc" && e.Coll == st.Coll && e.Seq >= st.SeekSeq && e.Ts <= st.SeekTs {
+			// the drop message itself lies below the seek time: this stream will never report it (KF checkpoint time filter)
+			r.st.DropSkipped[fmt.Sprintf("%d|%d|%d", tgt, st.Coll, st.Shard)] = true
+			r.s.Probe("drop_message_below_seek_time")
 		}
 	}
 	var skipped, byTime []int64
@@ -1232,6 +1252,11 @@ func (r *RigS) finalOracles() {
 	} else {
 		s.Probe("final_not_quiescent")
 	}
+	if r.plan.Prop == "C04" {
+		r.noteDropRequests()
+		r.checkDrops(tasks, sn, ok && len(s.Parked()) == 0)
+		return
+	}
 	if r.plan.Prop != "C05" && r.plan.Prop != "C06" {
 		return
 	}
@@ -1379,6 +1404,141 @@ func (r *RigS) finalOracles() {
 			s.Violate("C05", "lost_message"+cls, "task %s is running and idle at the end, but messages %v of collection %d shard %d never reached target %d", owner, lost, coll, shard, tgt)
 			// the same observation read as C06: a message that is not delivered while its task stays Running was skipped silently
 			s.Violate("C06", "silently_skipped"+cls, "task %s is Running (store and memory) and idle at the end, no failure is shown, but messages %v of collection %d shard %d never reached target %d", owner, lost, coll, shard, tgt)
+		}
+	}
+}
+
+// ------------------------------------------------------------------ C04 on the whole server
+
+// taskSelecting: the task of the model (accepted creates) on the given downstream whose specification selects the collection.
+func (r *RigS) taskSelecting(tgt int, c *SColl) string {
+	owner := ""
+	for _, id := range SortedKeys(r.st.Tasks) {
+		t := r.st.Tasks[id]
+		if t.Spec != nil && t.Spec.tgt() == tgt && specNames(t.Spec, c.DB, c.Name) {
+			owner = id
+		}
+	}
+	return owner
+}
+
+// noteDropRequests looks at the downstream requests made since the last step: for every drop-collection request it
+// remembers whether the drop-readiness record of that collection was still in the store right before the step in which the
+// request was executed (a request repeated then is the service finishing what it could not record as done).
+func (r *RigS) noteDropRequests() {
+	for tgt := range r.st.SDK {
+		ddl := r.st.SDK[tgt].DDL
+		for i := r.st.DDLSeen[tgt]; i < len(ddl); i++ {
+			d := ddl[i]
+			if d.Kind != "dropc" {
+				continue
+			}
+			for _, c := range r.sc.Colls {
+				if c.Name == d.Coll && c.DB == d.DB {
+					owner := r.taskSelecting(tgt, c)
+					r.st.DropRecPrev[fmt.Sprintf("%d#%d", tgt, i)] = owner != "" && strings.Contains(r.prevRaw, fmt.Sprintf("/%s/drop-collection-%d", owner, c.ID))
+				}
+			}
+		}
+		r.st.DDLSeen[tgt] = len(ddl)
+	}
+}
+
+// checkDrops (C04, whole server, judged over all incarnations at the end of the run): a collection dropped at the source is
+// dropped downstream by exactly one request, issued only after the drop message was delivered on every shard; a pause, a
+// stop or a restart never produces a drop of its own; once the faults have stopped the drop arrives (also when the source
+// dropped the collection while the service was not running).
+func (r *RigS) checkDrops(tasks map[string]*meta.TaskInfo, sn server.VerifSnapshot, quiescent bool) {
+	s := r.s
+	before := func(a, b [2]int) bool { return a[0] < b[0] || (a[0] == b[0] && a[1] < b[1]) }
+	for tgt := range r.st.SDK {
+		ddl := r.st.SDK[tgt].DDL
+		for _, c := range r.sc.Colls {
+			var reqs []int
+			created := false
+			for i, d := range ddl {
+				if d.DB != c.DB || d.Coll != c.Name {
+					continue
+				}
+				if d.Kind == "createc" && !d.Err {
+					created = true
+				}
+				if d.Kind == "dropc" {
+					reqs = append(reqs, i)
+				}
+			}
+			owner := r.taskSelecting(tgt, c)
+			if len(reqs) > 0 {
+				s.Probe("S_drop_checked")
+				// only after every shard reached the drop message
+				first := ddl[reqs[0]]
+				for sh := 0; sh < c.Shard; sh++ {
+					seen, have := r.st.DropSeen[fmt.Sprintf("%d|%d|%d", tgt, c.ID, sh)]
+					if !have || !before(seen, [2]int{first.Inc, first.Step}) {
+						what := "had not been delivered to any stream of that downstream"
+						if !r.droppedAtSource(c.ID) {
+							what = "does not exist: the collection is not dropped at the source"
+						}
+						s.Violate("C04", "S_drop_early", "downstream %d: drop request for collection %s (%d) executed in incarnation %d step %d, but the drop message of shard %d %s", tgt, c.Name, c.ID, first.Inc, first.Step, sh, what)
+						break
+					}
+				}
+				// exactly one request reaches the downstream as far as the service can tell
+				prevOK := -1
+				for _, i := range reqs {
+					d := ddl[i]
+					if d.Err || d.Fault != "" {
+						continue // the service saw this request fail: it has to try again
+					}
+					if prevOK >= 0 && !r.st.DropRecPrev[fmt.Sprintf("%d#%d", tgt, i)] {
+						p := ddl[prevOK]
+						s.Violate("C04", "S_drop_twice", "downstream %d: collection %s (%d) was dropped by a request answered with success in incarnation %d step %d and again in incarnation %d step %d, although the drop-readiness record had been removed (the first drop was recorded as done)", tgt, c.Name, c.ID, p.Inc, p.Step, d.Inc, d.Step)
+					}
+					if prevOK >= 0 && r.st.DropRecPrev[fmt.Sprintf("%d#%d", tgt, i)] {
+						s.Probe("S_drop_repeated_before_recorded")
+					}
+					prevOK = i
+				}
+			}
+			// liveness, and nothing left behind
+			if !r.droppedAtSource(c.ID) || owner == "" || !created {
+				continue
+			}
+			ti := tasks[owner]
+			if ti == nil || !quiescent || ti.State != meta.TaskStateRunning || sn.Tasks[owner].State != "Running" {
+				continue
+			}
+			complete := true // the drop message is published on every shard, inside the replication domain of the task's stream
+			for sh := 0; sh < c.Shard; sh++ {
+				found := false
+				from, streamed := r.st.Domain[domainKey(owner, tgt, c.ID, sh)]
+				for i, e := range r.mq.Logs[srcPCh(sh)] {
+					if e.Kind == "dropc" && e.Coll == c.ID && streamed && i >= from {
+						found = true
+					}
+				}
+				complete = complete && found
+			}
+			if !complete {
+				continue
+			}
+			cls := r.classOf(tasks, owner)
+			if cls == "" && r.bgPaused[tgt] {
+				cls = "_bystander_of_failed_task"
+			}
+			for sh := 0; sh < c.Shard; sh++ {
+				if r.st.DropSkipped[fmt.Sprintf("%d|%d|%d", tgt, c.ID, sh)] {
+					cls = "_after_restamped_time_skip"
+				}
+			}
+			s.Probe("S_drop_liveness_checked")
+			if r.st.SDK[tgt].Colls[c.DB+"/"+c.Name] != nil {
+				s.Violate("C04", "S_drop_missing"+cls, "downstream %d: collection %s (%d) is dropped at the source (drop message published on every shard), its task %s is Running and idle, but the collection still exists downstream (%d drop request(s) so far)", tgt, c.Name, c.ID, owner, len(reqs))
+				continue
+			}
+			if len(reqs) > 0 && ddl[reqs[len(reqs)-1]].Inc == r.plan.Incarnation && r.s.Stats["fault:taskmsg_store_err"] == 0 && strings.Contains(r.rawStore(), fmt.Sprintf("/%s/drop-collection-%d", owner, c.ID)) {
+				s.Violate("C04", "S_drop_record_left"+cls, "downstream %d: the drop of collection %s (%d) was replayed in this incarnation and task %s runs, but its drop-readiness record is still in the store (the drop would be replayed at every restart)", tgt, c.Name, c.ID, owner)
+			}
 		}
 	}
 }
